@@ -94,6 +94,48 @@ CHECKS["C10"] = dict(
          "models (timed wait on the stop flag = timeout elapsed), VM semantics (native replay), z3.",
 )
 
+CHECKS["C04"] = dict(
+    engine="sbvm-t+sbvm",
+    technique="bounded model checking (z3): the real BaseObserver (schedule/add/remove/unschedule/unschedule_all/"
+              "dispatch_events), EventEmitter.queue_event and the event queue (SkipRepeatsQueue over the interpreted "
+              "stdlib Queue) executed symbolically; (A) sequentially with symbolic registrations, a symbolic event sequence "
+              "and one symbolic re-entrant call per handler; (B) emitter threads, the dispatcher thread and an application "
+              "thread under the step-indexed symbolic scheduler",
+    level=("model_checking",
+           "(A) For every registration of up to 3 handlers on up to 2 watches, every sequence of 2 (thorough: 3) distinct "
+           "queued events and every choice of one re-entrant call per handler: a handler is registered for the event's watch "
+           "at the moment of each callback, a handler registered when the dispatch starts and never removed gets the event "
+           "exactly once, nobody gets it twice, per-handler order is queue order. (B) For every interleaving within K steps "
+           "of one or two emitter threads (1-2 events), the dispatcher and an application thread that adds and removes a "
+           "handler: exactly-once for handlers registered throughout, no cross-watch delivery, per-watch order, at most "
+           "once for the transient handler, nothing after its removal returned, no deadlock. Coalescing of identical "
+           "consecutive events is decided by the C16 check, not here.", "DESIGN.md section 9, C04"),
+    note="Trusted: threading models, the scheduling-point reduction (lock acquisitions, wait resumptions, accesses to "
+         "BaseObserver._handlers and the queue's _last_item, the start of every callback and queue_event), VM semantics, z3. "
+         "Emitter threads of the observer are not run; schedule()/unschedule() from concurrent application threads are "
+         "outside the bound (only add/remove handler).",
+)
+
+CHECKS["C05"] = dict(
+    engine="sbvm-t+sbvm",
+    technique="bounded model checking (z3): the real BaseObserver (schedule/add/remove/unschedule/unschedule_all/stop/"
+              "dispatch_events), EventEmitter.queue_event and the event queue executed symbolically; (A) sequentially with "
+              "symbolic registrations, a symbolic event sequence and one symbolic re-entrant API call per handler; (B) a "
+              "dispatcher thread and an application thread under the step-indexed symbolic scheduler",
+    level=("model_checking",
+           "(A) For every registration of up to 3 handlers on up to 2 watches, every sequence of 2 (thorough: 3) queued "
+           "events and every choice of one re-entrant call per handler (remove itself / another handler, unschedule this / "
+           "the other watch, unschedule_all, stop): no handler is invoked for a watch after the call that removed it "
+           "returned, the emitter of an unscheduled watch is told to stop, events are routed only to registered handlers, "
+           "at most once, in queue order. (B) For every interleaving (scheduling points: lock acquisitions, wait "
+           "resumptions, every access to BaseObserver._handlers, the start of a callback) of the dispatcher with one "
+           "application-thread call of remove_handler_for_watch / unschedule / unschedule_all / stop within K steps: no "
+           "callback of a removed handler starts after the call returned; no deadlock.", "DESIGN.md section 9, C05"),
+    note="Trusted: threading models, the scheduling-point reduction, VM semantics (counterexamples are replayed: sequential "
+         "ones natively, scheduled ones by forced re-execution), z3. Emitter threads are not run (their termination is "
+         "C06's subject, which is not claimed).",
+)
+
 CHECKS["C17"] = dict(
     engine="sbvm-t",
     technique="bounded model checking (z3): the real DelayedQueue bytecode executed symbolically by producer/consumer/"
@@ -139,7 +181,7 @@ CHECKS["C18"] = dict(
 )
 
 CHECKS["C12"] = dict(
-    engine="sbvm+sbvm-t",
+    engine="sbvm-t+sbvm",
     technique="SMT (z3): fault position/errno in watch construction as solver variables over the real Inotify.__init__ "
               "(Engine A); bounded model checking of the reader thread against close() over a descriptor-table model "
               "(Engine B)",
@@ -198,13 +240,6 @@ CHECKS["C19"] = dict(
 
 NOT_YET = "check not built yet (work in progress; see DESIGN.md section 11 for the order)"
 NA = {
-    "C04": "Needs the dispatcher, emitter and API threads of BaseObserver over the interpreted event queue under the symbolic "
-           "scheduler (Engine B). The queue part (coalescing, FIFO, exactly-once under producer/consumer interleavings) is "
-           "decided by the C16 check and the re-entrant/concurrent removal part by the C05 check; the full multi-watch, "
-           "multi-emitter program of the statement was not encoded within reach in the time available (the scheduler "
-           "unrolling needed for observer + emitters + API threads did not finish building). No other technique was "
-           "substituted.",
-    "C05": "Not built: see C04 (same program family).",
     "C06": "Attempted (vf/props/c06.py): the symbolic-scheduler unrolling of start/schedule/stop/join over BaseObserver, "
            "EventEmitter, InotifyBuffer and the delayed queue needs more than 60 scheduler steps for the smallest "
            "interesting program and its encoding did not finish building within an hour; deadlock freedom of the parts is "
